@@ -176,6 +176,9 @@ func (n *namer) genCmdBody(c *Cmd) {
 				t = cfg.PosTypes[r.Intn(len(cfg.PosTypes))]
 			}
 			a.T = TypeSpec{K: t.K}
+			if isIntKind(t.K) && r.Chance(cfg.PBase, 100) {
+				a.Base = []int{2, 8, 16, 36}[r.Intn(4)]
+			}
 			if i == k-1 && rest {
 				a.T.W = WSlice
 				if r.Chance(cfg.PPosReq, 100) {
@@ -553,6 +556,10 @@ func GenScalarText(r *Rand, k TK, base int, variant int) string {
 		}
 		return formatBig(v, base, r)
 	case k == KFloat32 || k == KFloat64:
+		if r.Chance(1, 10) {
+			// values whose float32 and float64 roundings differ in interesting ways
+			return []string{"16777217", "1.0000000596046447753906250000001", "0.1", "33554435", "3.4028234663852886e38", "1.00000017881393432617187501", "-16777219"}[r.Intn(7)]
+		}
 		switch r.Intn(6) {
 		case 0:
 			return strconv.Itoa(r.Intn(2000) - 1000)
@@ -616,7 +623,7 @@ func GenValueText(r *Rand, o *Opt) string {
 var (
 	scalarKinds  = []TK{KString, KInt, KInt8, KInt16, KInt32, KInt64, KUint, KUint8, KUint16, KUint32, KUint64, KFloat32, KFloat64, KDuration, KCelsius, KPoint}
 	typesAllArgs []TypeSpec // every argument-taking type of the matrix
-	typesFlags   = []TypeSpec{{K: KBool}, {K: KBool, W: WSlice}, {K: KBool, W: WPtr}, {W: WFunc0}}
+	typesFlags   = []TypeSpec{{K: KBool}, {K: KBool, W: WSlice}, {K: KBool, W: WPtr}, {W: WFunc0}, {W: WFunc0Err}}
 	typesAll     []TypeSpec
 )
 
